@@ -192,7 +192,25 @@ pub fn gen_path(rng: &mut Rng, w: i32, h: i32, cfg: PathCfg) -> PathSpec {
 /// A shape that deliberately covers only part of its bounding box / of the surface
 pub fn gen_sparse_path(rng: &mut Rng, w: i32, h: i32) -> PathSpec {
     let q = true;
-    let segs = match rng.below(4) {
+    let segs = match rng.below(5) {
+        4 => {
+            // two polygons side by side with a gap of at least two pixels between them
+            let mid = (w / 2) as f32;
+            let mut segs = Vec::new();
+            for side in 0..2 {
+                let n = 3 + rng.usize(2);
+                for v in 0..n {
+                    let x = if side == 0 { rng.f32_in(-2., mid - 1.) } else { rng.f32_in(mid + 1., w as f32 + 2.) };
+                    // plenty of nearly horizontal edges
+                    let y = if rng.chance(1, 2) { coord(rng, h, false) } else { (rng.range(0, h.max(1)) as f32) + rng.f32_in(0., 0.5) };
+                    segs.push(if v == 0 { Seg::M(F(x), F(y)) } else { Seg::L(F(x), F(y)) });
+                }
+                if rng.chance(1, 2) {
+                    segs.push(Seg::Z);
+                }
+            }
+            segs
+        }
         0 => {
             // triangle
             vec![
@@ -403,7 +421,10 @@ pub fn gen_source(rng: &mut Rng, w: i32, h: i32, weights: &[u32; 6]) -> SrcSpec 
             let r2 = rng.f32_in(1., 1.5 * e);
             let r1 = rng.f32_in(0.1, r2 * 0.6);
             let d = (r2 - r1) * 0.6;
-            let c1 = if rng.chance(1, 3) {
+            let r1 = if rng.chance(1, 14) { r2 } else { r1 };
+            let c1 = if rng.chance(1, 14) {
+                c2
+            } else if rng.chance(1, 3) {
                 // circles that are not nested: outside of the cone the gradient is transparent
                 p2(rng)
             } else {
@@ -413,7 +434,14 @@ pub fn gen_source(rng: &mut Rng, w: i32, h: i32, weights: &[u32; 6]) -> SrcSpec 
         }
         _ => {
             let a0 = rng.f32_in(0., 300.);
-            SrcKind::Sweep { stops: gen_stops(rng), spread: rng.below(3) as u8, center: p2(rng), a0: F(a0), a1: F(a0 + rng.f32_in(10., 360.)) }
+            // degenerate angle ranges now and then (empty, reversed, more than a turn)
+            let a1 = match rng.below(12) {
+                0 => a0,
+                1 => a0 - rng.f32_in(10., 200.),
+                2 => a0 + rng.f32_in(360., 900.),
+                _ => a0 + rng.f32_in(10., 360.),
+            };
+            SrcKind::Sweep { stops: gen_stops(rng), spread: rng.below(3) as u8, center: p2(rng), a0: F(a0), a1: F(a1) }
         }
     };
     // gradients "built directly" with a transform of their own now and then
